@@ -27,6 +27,8 @@ import (
 	"strings"
 	"sync"
 
+	"github.com/influxdata/influxql"
+
 	"verifharness/internal/ev"
 )
 
@@ -103,7 +105,7 @@ func body() {
 	type fjob struct {
 		id    string
 		c     *rtCase
-		typ   int
+		typ   influxql.DataType
 		seed  int64
 		class string
 	}
@@ -120,7 +122,7 @@ func body() {
 				if j.c != nil {
 					fidelityCase(j.id, *j.c, j.seed, j.class)
 				} else {
-					streamCase(j.id, streamTypes[j.typ], j.seed)
+					streamCase(j.id, j.typ, j.seed)
 				}
 			}
 		}()
@@ -176,7 +178,16 @@ func body() {
 			if r.Skip(id) {
 				continue
 			}
-			fch <- fjob{id: id, typ: t, seed: seed}
+			fch <- fjob{id: id, typ: streamTypes[t], seed: seed}
+		}
+		gu := r.Rand("point-streams-unsigned")
+		for k := 0; k < r.Pick(300, 6000); k++ {
+			seed := gu.Int63()
+			id := fmt.Sprintf("points/unsigned/%d", k)
+			if r.Skip(id) {
+				continue
+			}
+			fch <- fjob{id: id, typ: influxql.Unsigned, seed: seed}
 		}
 	}()
 
